@@ -149,3 +149,4 @@ def _(self, size, start, s_start, seq, qual, mq, prev_q, norm, muts, phase, dump
             label="other-cells-untouched")
     ensures(result[0] == start and result[1] == s_start + size, label="cursors")
     modifies(muts, phase, dump_arr, self._indel_sites)
+
